@@ -45,9 +45,28 @@ pub enum Family {
     Fraction,
     /// an array whose only item is an object whose only member is an array of n items
     NestedArray,
+    /// two parameters at once: an object with `count` distinct keys of `len` bytes each, for
+    /// the n-th point of the grid lengths {17, 33, 63, 64, 65, 129, 257} x counts {4, 8, 15, 29, 57}
+    /// (key length thresholds x growth points of the key index)
+    KeyGrid,
+    /// the same grid with every key occurring twice (the second round after all first ones)
+    KeyGridDup,
 }
 
-pub const FAMILIES: [Family; 13] = [
+pub const GRID_LENS: [usize; 7] = [17, 33, 63, 64, 65, 129, 257];
+pub const GRID_COUNTS: [usize; 5] = [4, 8, 15, 29, 57];
+
+fn grid_key(len: usize, i: usize) -> String {
+    // the index at both ends, so that neither a prefix nor a suffix of the key identifies it alone
+    let mut k = format!("{i:03}");
+    while k.len() + 3 < len {
+        k.push('k');
+    }
+    k.push_str(&format!("{i:03}"));
+    k
+}
+
+pub const FAMILIES: [Family; 15] = [
     Family::AsciiString,
     Family::MixedString,
     Family::EscapedString,
@@ -61,6 +80,8 @@ pub const FAMILIES: [Family; 13] = [
     Family::Integer,
     Family::Fraction,
     Family::NestedArray,
+    Family::KeyGrid,
+    Family::KeyGridDup,
 ];
 
 impl Family {
@@ -69,6 +90,7 @@ impl Family {
         match self {
             Family::AsciiString | Family::MixedString | Family::EscapedString | Family::BalancedString | Family::LongKey | Family::Array | Family::NestedArray => 65537,
             Family::Integer | Family::Fraction => 4097,
+            Family::KeyGrid | Family::KeyGridDup => GRID_LENS.len() * GRID_COUNTS.len() - 1,
             Family::DistinctKeys | Family::DistinctLongKeys => {
                 if thorough {
                     16385
@@ -131,6 +153,15 @@ impl Family {
             Family::Integer => RV::Num(if n == 0 { "0".to_string() } else { format!("1{}", "0".repeat(n - 1)) }),
             Family::Fraction => RV::Num(if n == 0 { "0".to_string() } else { format!("0.{}1", "0".repeat(n - 1)) }),
             Family::NestedArray => RV::Arr(vec![RV::Obj(vec![("k".to_string(), RV::Arr((0..n).map(|i| RV::Bool(i % 3 == 0)).collect()))])]),
+            Family::KeyGrid | Family::KeyGridDup => {
+                let len = GRID_LENS[(n / GRID_COUNTS.len()) % GRID_LENS.len()];
+                let count = GRID_COUNTS[n % GRID_COUNTS.len()];
+                let mut m: Vec<(String, RV)> = (0..count).map(|i| (grid_key(len, i), RV::Num(i.to_string()))).collect();
+                if self == Family::KeyGridDup {
+                    m.extend((0..count).map(|i| (grid_key(len, i), RV::Str(format!("again-{i}")))));
+                }
+                RV::Obj(m)
+            }
         }
     }
 }
